@@ -8,6 +8,11 @@ HOOK_COMMITS = ["204cfe3", "2edc694", "e1d8638"]
 
 # id -> (category, technique, level text, level note, design ref)
 CHECKS = {
+ "C09": ("exploration",
+         "differential runtime oracle: TopN(n, from, sort) and After/Before page chains of the real collectors against the complete match list ordered by a reference comparator over model values",
+         "For generated corpora, queries, sort orders (<= 3 keys, score/text/numeric/date, asc/desc, missing first/last) and (n, from) on both sides of the slice/heap switch, the result count and the pre-allocation cap, the returned ids must equal elements [from, from+n) of the reference ranking; After and Before chains under a total order must visit every match once in order for all page sizes, with fresh and with re-used sort order objects. Held on the inputs explored.",
+         "Trusts: the reference comparator (model values, ties by enumeration order of the all-matches collector), scores taken from the all-matches run. Sort fields single-valued.",
+         "DESIGN.md §4 C09"),
  "C07": ("exploration",
          "differential runtime oracle: real searches (both collectors; current-root, superseded and OpenReader readers; step-counting reader) against an independent evaluator of the documented query meanings over a reference model",
          "Every generated query tree over every generated multi-segment corpus with pending deletions is answered by the real searchers and compared as a multiset of ids with a from-the-documentation evaluator; query lists are served in sequence by one reader so that iterator recycling and backward Advance are in play, every 10th query is repeated and must answer identically; a small scope (3 terms x 5 docs x 2 segments x fixed boolean shapes) is enumerated (sampled in quick, complete in thorough). Held on the corpora and queries explored.",
